@@ -138,6 +138,11 @@ def run_pipeline(case, data, tmpdir, script_override=None, decisions=None, strat
             src0 = H.FaultyCloseSource(data, case["rate"], case["width"], case["channels"])
             reader = H.SchedReader(src0, **rkw).vf_init(sched)
             src0.vf_reader = reader
+        elif case.get("buffer_type"):
+            # the source's buffer is a bytearray / memoryview (a ring buffer, readinto()): its blocks are not `bytes` objects
+            buf = bytearray(data) if case["buffer_type"] == "bytearray" else memoryview(bytes(data))
+            src0 = auditok.io.BufferAudioSource(buf, case["rate"], case["width"], case["channels"])
+            reader = H.SchedReader(src0, **rkw).vf_init(sched)
         else:
             reader = H.SchedReader(data, **rkw, **AC.audio_kwargs(case)).vf_init(sched)
         holder["reader"] = reader
